@@ -9,6 +9,9 @@ CHECKS = {
  "C01": ("panic/abort monitor at the BufferParser::print_char boundary (catch_unwind + panic hook + supervised worker processes with write-ahead journal), enumerated control-function table x screen states plus seeded grammar/raw/mutated streams; debug-assertion UB precondition checks observed as aborts",
          "Every character of every generated stream goes through the real emulation under a panic monitor; worker deaths (abort, stack overflow) are attributed to the single case in BEGIN state. The complete CSI table (63 finals x 8 intermediates x <=2 boundary parameters) x 8 state prefixes x 4 screens and ESC/lead-in + every byte for all 10 emulations are enumerated; longer histories are sampled. Held = no panic/abort on any observed execution.",
          "Characters are the 256 byte values. Resource exhaustion (work budget, allocation refusal, nesting) is C03's verdict, not C01's. Coverage beyond the enumerated table is sampling.", "DESIGN.md §4 C01"),
+ "C02": ("panic/abort monitor at the loader boundaries (catch_unwind + panic hook + supervised worker processes with write-ahead journal and death attribution) over a corpus derived from the engine's own writers: dense truncations, per-byte corruption tables, cross-extension loading, structure-aware mutation; debug-assertion UB precondition checks observed as aborts",
+         "Each case is one call of Buffer::from_bytes / SauceData::extract / BitFont::from_bytes / TheDrawFont::from_tdf_bytes / Palette::load_palette / import_palette on the real code. Seeds are the output of every writer (14 formats, with and without SAUCE/comments, compressed and raw) plus fonts and palettes; every prefix length (dense near header and tail), every byte of the first 160 and last 140 bytes x 7 replacement values, every seed under 27 extensions, SAUCE tails built from field extremes, IcyDraw chunk payloads mutated below a valid CRC, little-endian field extremes, splices, inserts, deletes and random bytes. Held = no panic, abort or worker death on any observed case.",
+         "Resource exhaustion (allocation refusal, work budget) is C03's verdict. PaletteFormat::Ase import is todo!() in the engine and listed as a known finding. Coverage beyond the enumerated tables is sampling.", "DESIGN.md §4 C02"),
  "C03": ("logical work counter (cfg hook ticks), counting global allocator, nesting guard and per-run CPU clock as runtime monitors; absolute-bound oracle plus metamorphic saturation oracle over parameter magnitudes; worker-death attribution for allocation refusal / stack overflow / CPU hang",
          "Each template (complete CSI table with numeric slots, macro/sixel/font/margin families) is executed on the real engine with every slot at W*H+1, 2^16, 10^6 and 2^31-1. The monitors decide on deterministic counts (ticks, bytes requested, nesting depth), not wall-clock: ticks <= 16(n+1)WH*max(W,H), peak allocation <= 64MiB+4096n, nesting <= 32, and no growth beyond 2x between magnitudes >= 2^16. The CSI table is complete for parameter vectors of length <= 3 in quick and <= 6 in thorough.",
          "One tick per cell/pixel/glyph operation at the hook sites; loops without a tick are only seen by the 2 s CPU clock and the 60 s supervisor watchdog. Bounds are generous constants chosen by the harness; macro replay (65536 chars) and sixel (2048 px) limits of the engine are treated as fixed constants.", "DESIGN.md §4 C03"),
@@ -21,6 +24,18 @@ CHECKS = {
  "C06": ("strict specification decoder (reference model written from x_bin.htm) applied to the bytes the real writer emits, plus three-way loader differential; exhaustive small-scope row enumeration packed 4096 rows per buffer",
          "All rows of width 1..=7 over 3 chars x 3 attributes x 2 font pages (6.1e8 rows, thorough; widths 1..=5 in quick) and width 1..=10 over a 2x2 alphabet are saved compressed and decoded by an independent decoder that enforces run length 1..=64, no run across a row boundary, exact row width and no trailing bytes; decoded bytes must equal the source incl. the font-page bit; the engine's loader must give the same cells for compressed and uncompressed output. Random buffers up to 200x30 add long runs around the 64-cell limit.",
          "Rows are independent in this format, which is what makes packing many rows into one buffer an exhaustive enumeration of row neighbourhoods.", "DESIGN.md §4 C06"),
+ "C07": ("write->read differential on the real IcyDraw (.icy) writer and loader with a field-by-field comparator over generated documents (runtime round-trip monitor), violations shrunk over layers, cells and fonts",
+         "Documents with 1..=6 layers of every flag combination, mode, colour tag, offset (negative too), size incl. 0 and > 255, Unicode and 300-character titles, short- and long-form cells incl. characters above 0xFFFF, colours above 255 and the transparent colour, palettes of 1..=300 colours, font slots up to 300 with built-in and custom glyphs, with and without SAUCE are saved and loaded; size, modes, every layer property, every cell inside the layer size, palette, every font slot and the SAUCE fields must come back. Loader robustness on mutated chunk streams is C02/C03's matter.",
+         "Sizes stay mostly below 40x20 because every save PNG-encodes a preview. Invisible cells are compared as invisible only.", "DESIGN.md §4 C07"),
+ "C08": ("recorded operation histories on the real EditState checked against snapshots taken at every operation boundary (history + snapshot model): full undo walk, full redo walk, random undo/redo walk and redo-discard check, exhaustive short histories plus seeded long ones, violations shrunk by delta debugging over operations and layers",
+         "After every operation that returns Ok the harness records (undo stack length, snapshot of size, modes, palette, fonts, SAUCE and per layer position, properties, size, offset and every cell get_char shows). Undo must return Ok, never panic and bring back, at every stack length that is an operation boundary, the snapshot of that boundary; redo likewise up to the final state; a random walk over undo/redo revisits the boundaries; a new edit after an undo must empty the redo history. All histories of length <=2 over a 54-operation instantiated alphabet on 3 documents are enumerated (length 3: complete in thorough, 20000 sampled in quick) plus 30k (quick) / 400k (thorough) random histories of up to 40 operations on 1..=3-layer documents with alpha, offset, hidden and locked layers.",
+         "Selection, caret and current layer are editor state, not document state. Cells hidden by a smaller layer size are compared when an undo makes them visible again. An operation that panics or returns Err ends the history before it (counted in the evidence; C08 speaks about operations that report success).", "DESIGN.md §4 C08"),
+ "C12": ("render differential on the real renderer: Buffer::render_to_rgba of a document and of ColorOptimizer::optimize(document) compared byte for byte, first differing pixel mapped back to its cell (runtime observational oracle)",
+         "Documents of 1..=4 layers whose font slot 0 cycles through every built-in font page 0..=42 and every SAUCE font, cells over all 256 glyphs with the blank glyphs and the solid block over-represented, DOS and RGB colours, bold, both whitespace settings; every (font page, glyph) pair is rendered at least once in thorough.",
+         "The rendered picture (blink off) is the definition of 'looks the same'.", "DESIGN.md §4 C12"),
+ "C13": ("metamorphic runtime monitor on the real compositor Buffer::get_char: six stacking laws checked at every position of the bounding box plus border before and after an invisible transformation, and a 15-line reference compositor on the fragment without modes/transparent colours/overlay",
+         "Stacks of 1..=5 layers with every combination of mode, alpha, visibility, offset and sparse content incl. transparent-colour half blocks and an optional overlay; laws L1 (empty alpha layer insertion), L2 (hidden layer content), L3 (translation), L4 (opaque layer hides everything below), L5 (moving a layer changes only covered positions), L6 (reference compositor).",
+         "Invisible results are compared as invisible only.", "DESIGN.md §4 C13"),
  "C09": ("runtime invariant assertion after every print_char (cursor inside visible window, fixed 40x24 grid), exhaustive <=3-token sequences + seeded streams, violations shrunk by delta debugging",
          "The geometry invariant is evaluated after every character of every stream. All <=2-token sequences over a ~230-token alphabet and (thorough) all 3-token sequences over the 70-token core alphabet x 5 sizes x {fresh, scrollback} are enumerated; byte pairs for the non-CSI emulations; random streams up to 4 KiB.",
          "Streams are not checked after their first ResizeTerminal action. Streams ending in a panic are C01's matter.", "DESIGN.md §4 C09"),
